@@ -94,7 +94,7 @@ ENTRIES = [
      'RandomState::new reads a thread-local seed; panics only during thread-local destruction (ASSUMED: evaluation is not run from a TLS destructor)'),
     (r'HashMap::<K, V, S, A>::(insert|get|get_mut|remove|contains_key|entry)$|HashMap<K, V, S, A> as std::clone::Clone>::clone$', r'^(hashbrown::raw::|<std::ops::Range<usize> as std::iter::adapters::step_by|std::iter::StepBy::<I>::new)', r'^(assert:(DivisionByZero|RemainderByZero|Overflow)|diverge:core::panicking::panic|indirect)$',
      'hashbrown rehash: step_by(Group::WIDTH) with a non-zero constant, capacity arithmetic bounded by allocation limits, hasher closure built in place'),
-    (r'HashMap::<K, V, S, A>::(insert|get|get_mut|remove|contains_key)$', r'^std::ops::Fn(Mut|Once)?::call', r'^virtual:std::ops::Fn',
+    (r'HashMap::<K, V, S, A>::(insert|get|get_mut|remove|contains_key|entry|get_key_value|remove_entry)$|hash_map::Entry::<.*>::(or_insert|or_insert_with|or_default)$', r'^std::ops::Fn(Mut|Once)?::call', r'^virtual:std::ops::Fn',
      'hashbrown passes its own eq/hash closures as &mut dyn FnMut; those closures are entered where they are built'),
     (r'Vec<T, A> as std::iter::Extend<T>>::extend$', r'Vec::<T, A>::extend_trusted$', r'^diverge:std::rt::panic_fmt$',
      'capacity overflow for TrustedLen iterators longer than usize::MAX (memory exhaustion class)'),
@@ -119,6 +119,47 @@ ENTRIES = [
 ]
 ENTRIES = [(re.compile(a), re.compile(c), re.compile(k), why) for a, c, k, why in ENTRIES]
 
+# ---- std APIs documented to be total (no "# Panics" section, no caller contract): every panic leaf found below a direct
+# call to one of these is std's own internal invariant (sorting, searching, iterator adaptors, UTF-8 handling, ...).
+# Caller-contract APIs are deliberately NOT listed: index/index_mut, unwrap/expect, swap_remove/remove/insert/drain/split_off,
+# windows/chunks*/split_at*/copy_from_slice/swap/rotate_*, String::truncate/insert/remove, clamp, to_digit/from_digit/
+# from_str_radix (radix), step_by, Iterator::sum/product, non-checked integer arithmetic (+ - * / % << >> abs pow neg),
+# RefCell::borrow*, div_euclid/rem_euclid on integers.
+_STR = r'(chars|char_indices|bytes|len|is_empty|contains|starts_with|ends_with|find|rfind|split|rsplit|splitn|rsplitn|split_once|rsplit_once|split_whitespace|split_terminator|lines|trim|trim_start|trim_end|trim_matches|trim_start_matches|trim_end_matches|strip_prefix|strip_suffix|to_lowercase|to_uppercase|to_ascii_lowercase|to_ascii_uppercase|to_owned|to_string|replace|replacen|get|is_char_boundary|eq_ignore_ascii_case|parse|as_bytes|as_ptr|matches|match_indices|is_ascii|escape_debug|escape_default)'
+_SLICE = r'(len|is_empty|iter|iter_mut|first|last|first_mut|last_mut|get|get_mut|contains|to_vec|sort|sort_by|sort_by_key|sort_unstable|sort_unstable_by|sort_unstable_by_key|reverse|join|concat|starts_with|ends_with|binary_search|binary_search_by|binary_search_by_key|split_first|split_last|into_vec|is_sorted|fill)'
+_VEC = r'(new|with_capacity|push|pop|len|is_empty|clear|extend_from_slice|dedup|dedup_by|dedup_by_key|retain|retain_mut|truncate|into_boxed_slice|as_slice|as_mut_slice|capacity|reserve|shrink_to_fit|append|into_iter|from_elem|resize)'
+_STRING = r'(new|with_capacity|push|push_str|pop|len|is_empty|clear|as_str|as_mut_str|into_bytes|from_utf8_lossy|from_utf8|capacity|reserve|shrink_to_fit|into_boxed_str|as_bytes|retain)'
+_ITER = r'(next|next_back|count|collect|map|filter|filter_map|any|all|find|find_map|position|rposition|max|min|max_by|min_by|max_by_key|min_by_key|fold|try_fold|rev|skip|take|skip_while|take_while|zip|enumerate|cloned|copied|chain|flat_map|flatten|last|nth|for_each|try_for_each|peekable|peek|size_hint|by_ref|inspect|fuse|partition|unzip|cmp|partial_cmp|eq|ne|lt|le|gt|ge|into_iter|scan|map_while|cycle|rfold|rfind|nth_back|len|is_empty|extend)'
+_OPT = r'(map|and_then|or|or_else|xor|unwrap_or|unwrap_or_else|unwrap_or_default|ok|err|map_err|map_or|map_or_else|is_some|is_none|is_some_and|is_ok|is_err|as_ref|as_mut|as_deref|as_deref_mut|cloned|copied|ok_or|ok_or_else|take|replace|filter|zip|and|iter|iter_mut|get_or_insert_with|insert|transpose|flatten|then|then_some|into_owned|is_ok_and|is_err_and|inspect|inspect_err)'
+_INT = r'(checked_\w+|(wrapping|saturating|overflowing)_(?!div|rem)\w+|count_ones|count_zeros|leading_zeros|trailing_zeros|signum|is_positive|is_negative|to_string|min|max|cmp|partial_cmp|unsigned_abs|abs_diff|to_le_bytes|to_be_bytes|from_le_bytes|from_be_bytes|rotate_left|rotate_right|swap_bytes|is_power_of_two)'
+_FLOAT = r'(abs|sqrt|cbrt|powf|powi|exp|exp2|exp_m1|ln|ln_1p|log|log2|log10|sin|cos|tan|asin|acos|atan|atan2|sinh|cosh|tanh|asinh|acosh|atanh|hypot|floor|ceil|round|round_ties_even|trunc|fract|mul_add|min|max|rem_euclid|div_euclid|is_nan|is_finite|is_infinite|is_normal|is_sign_negative|is_sign_positive|signum|copysign|to_bits|from_bits|recip|to_degrees|to_radians|total_cmp|partial_cmp|sin_cos|minimum|maximum)'
+_CHAR = r'(is_\w+|to_lowercase|to_uppercase|to_ascii_lowercase|to_ascii_uppercase|len_utf8|len_utf16|eq_ignore_ascii_case|to_string)'
+_MAP = r'(new|default|with_capacity|insert|get|get_mut|get_key_value|remove|remove_entry|contains_key|entry|keys|values|values_mut|iter|iter_mut|len|is_empty|clear|retain|drain|extend|or_insert|or_insert_with|or_insert_with_key|or_default|and_modify|key|into_keys|into_values|reserve|shrink_to_fit)'
+TOTAL_APIS = [re.compile(x) for x in [
+    r'^(core|std)::str::<impl str>::' + _STR + '$',
+    r'^(core|std)::slice::<impl \[T\]>::' + _SLICE + '$',
+    r'^std::vec::Vec::<T, A>::' + _VEC + '$', r'^std::vec::from_elem$',
+    r'^std::string::String::' + _STRING + '$',
+    r'^std::iter::(Iterator|DoubleEndedIterator|ExactSizeIterator|IntoIterator|Extend|FromIterator)::' + _ITER + '$',
+    r'^<(std|core)::(slice|str|iter|vec|option|result|collections|string|char|ops|array)::.* as std::iter::(Iterator|DoubleEndedIterator|ExactSizeIterator|IntoIterator|Extend<[^>]*>|FromIterator<[^>]*>)>::' + _ITER + '$',
+    r'^<&.* as std::iter::IntoIterator>::into_iter$', r'^<I as std::iter::IntoIterator>::into_iter$', r'^<&mut I as std::iter::Iterator>::' + _ITER + '$',
+    r'^std::iter::Peekable::<I>::(peek|peek_mut|next_if|next_if_eq)$',
+    r'^std::(option::Option|result::Result)::<[^>]*>::' + _OPT + '$',
+    r'^(core|std)::num::<impl (i|u)(8|16|32|64|128|size)>::' + _INT + '$',
+    r'^(core|std)::f(32|64)::<impl f(32|64)>::' + _FLOAT + '$',
+    r'^(core|std)::char::methods::<impl char>::' + _CHAR + '$',
+    r'^std::collections::(HashMap|hash_map::Entry|hash_map::OccupiedEntry|hash_map::VacantEntry|BTreeMap|HashSet|BTreeSet)::<[^>]*>::' + _MAP + '$',
+    r'^std::(fmt::format|fmt::Arguments::<\'a>::(new|new_const|from_str|from_str_nonconst|new_v1|as_str)|hint::must_use|mem::(take|replace|swap|discriminant|drop|forget)|boxed::Box::<T>::(new|new_uninit)|borrow::Cow::<[^>]*>::(into_owned|to_mut|is_borrowed|is_owned)|convert::identity|cmp::(min|max|Ord::(min|max|cmp)|PartialOrd::(partial_cmp|lt|le|gt|ge)|PartialEq::(eq|ne)))$',
+    r'^core::fmt::rt::Argument::<\'_>::(new_display|new_debug|new_lower_hex|new_upper_hex)$',
+    r'^<.* as std::(clone::Clone>::clone|default::Default>::default|cmp::PartialEq(<[^>]*>)?>::(eq|ne)|cmp::PartialOrd(<[^>]*>)?>::(partial_cmp|lt|le|gt|ge)|cmp::Ord>::(cmp|min|max)|string::ToString>::to_string|borrow::ToOwned>::to_owned|ops::Deref>::deref|ops::DerefMut>::deref_mut|convert::AsRef<[^>]*>>::as_ref|borrow::Borrow<[^>]*>>::borrow|hash::Hash>::hash|str::FromStr>::from_str|fmt::(Display|Debug|Write)>::(fmt|write_str|write_char|write_fmt))$',
+    r'^<(std::string::String|std::vec::Vec<[^>]*>|std::boxed::Box<[^>]*>|&str|std::borrow::Cow<[^>]*>) as std::convert::(From|Into)<[^>]*>>::(from|into)$',
+    r'^<T as std::convert::(Into|From)<[^>]*>>::(into|from)$',
+]]
+
+
+def is_total_api(api):
+    return any(rx.search(api) for rx in TOTAL_APIS)
+
 
 def classify(api_defs, leaf, features=()):
     """returns (trusted: bool, reason/class). api_defs: def paths of the std API called from evalexpr at this site."""
@@ -126,6 +167,9 @@ def classify(api_defs, leaf, features=()):
     for name, pred, why in CLASS_RULES:
         if pred(k, c):
             return True, 'class:' + name
+    if not (k.startswith('virtual:') or k == 'indirect' or k.startswith('unresolved') or k.startswith('unsize') or k == 'inline_asm' or k == 'thread_local' or k.startswith('foreign:')):
+        if api_defs and all(is_total_api(a) for a in api_defs):
+            return True, 'total-api:std API documented never to panic (internal invariant of std below it)'
     if k.startswith('intrinsic:'):
         n = k.split(':', 1)[1]
         if n in INTRINSICS_OK:
